@@ -251,6 +251,23 @@ func TestC20Trunc(t *testing.T) {
 		}
 		level = next
 	}
+	// long valid strings (16..200 runes over a wider rune set incl. 2-byte
+	// runes of every lead byte class), every cut point
+	lrng := h.RNG("longvalid")
+	wide := []string{"a", "b", "é", "ñ", "°", "ß", "\u07ff", "€", "\u0800", "\uffff", "😀", "\U00010000", "\U0010ffff", " "}
+	for i, nl := 0, h.Pick(150, 3000); i < nl; i++ {
+		var sb strings.Builder
+		for r, nr := 0, 16+lrng.Intn(185); r < nr; r++ {
+			if lrng.Intn(3) == 0 {
+				sb.WriteString("a")
+			} else {
+				sb.WriteString(wide[lrng.Intn(len(wide))])
+			}
+		}
+		if !one(sb.String(), "valid_utf8_long") {
+			return
+		}
+	}
 	// seeded invalid byte strings (only the UTF-8-independent clauses apply)
 	rng := h.RNG("invalid")
 	pool := []byte{'a', 'b', 0x80, 0xBF, 0x98, 0xC3, 0xA9, 0xE2, 0x82, 0xAC, 0xF0, 0x9F, 0xFF, 0xC0, 0xF8}
